@@ -60,3 +60,12 @@ Qed.
 Lemma rust_name_is_tag (conv : kind -> string -> string) cc scope x t :
   s_tag x = Some t -> rust_name conv cc scope x = t /\ emitted conv cc scope x = display t.
 Proof. intros H. unfold emitted, rust_name. now rewrite H. Qed.
+
+(* finding F-14p: heck drops the leading underscore of service `_1`; the helper items are then named from "1": not identifiers.
+   (The strengthened [plain_ident] requires a letter / underscore head, so the hypothesis of display_token_ok excludes exactly this.) *)
+Lemma digit_head_refuted :
+  let camel := fun s => if String.eqb s "_1" then "1" else s in
+  let names := helper_items camel (camel "_1") [] (mkFunc "K" None false) in
+  names = ["1KResultRecv"; "1KResultSend"; "1KArgsSend"; "1KArgsRecv"] /\
+  forallb (fun n => negb (plain_ident n) && negb (ident_token_ok (display n))) names = true.
+Proof. split; vm_compute; reflexivity. Qed.
